@@ -76,6 +76,9 @@ func readAll(r io.Reader, buf []byte, into *[]byte) error {
 	empty := 0
 	for {
 		n, err := r.Read(buf)
+		if n < 0 || n > len(buf) {
+			return fmt.Errorf("drive: io.Reader contract broken: Read returned n=%d for a %d-byte buffer (err=%v)", n, len(buf), err)
+		}
 		*into = append(*into, buf[:n]...)
 		if err == io.EOF {
 			return nil
